@@ -66,6 +66,9 @@ func c04cRun(c c04Case) verifkit.Result {
 	}
 	body := payload[pr.Pos:]
 	hasMap := c04HasMap(combo.Type, map[reflect.Type]bool{})
+	// (an unsigned KeyedPlayerChat carries time.Now() as its timestamp, as Velocity
+	// does: blanked on both sides, like in the main check)
+	body, direct = c04Mask(p, body), c04Mask(p, direct)
 	if !bytes.Equal(body, direct) && !(hasMap && len(body) == len(direct) && c04SameMultiset(body, direct)) {
 		return verifkit.Fail("codec-path:body-differs", "%s %s %s proto=%d id=%#x: Encoder.WritePacket wrote body %s, encoding with the documented context gives %s", combo.Type, combo.State, combo.Dir, combo.Proto, int(combo.ID), c04Q(string(c04Head(body))), c04Q(string(c04Head(direct))))
 	}
